@@ -408,6 +408,28 @@ def run(run):
     run.sample({"template": TEMPLATES[2][0], "text": text, "token_lines": lines})
     nmod = module_faults(run, rng, 25 if quick else 600)
     nlex = lexical_faults(run, rng, 600 if quick else 20000)
+    # the SAME text under two file names, one after the other: each report names the file it was given
+    # (a cache keyed by the text alone would hand back the first name)
+    names = ["first.ckl", "second.ckl", "dir/third.ckl"]
+    for name, t in TEMPLATES[:: (4 if quick else 1)]:
+        texts, roles = parse_template(t)
+        text, lines = layout(rng, texts)
+        for fn in names:
+            shared.environment = shared.base_environment.newEnv()
+            nrt += check_runtime_fault(run, name + "@" + fn, texts, roles, text, lines, fname=fn, interp=shared)
+    for key, err_at in faults[: (60 if quick else 2000)]:
+        texts = [c01.tok_text({"ty": ty, "v": v}) for ty, v in key]
+        text, lines = layout(rng, texts)
+        for fn in names:
+            try:
+                parse_script(text, fn)
+            except CklSyntaxError as e:
+                if e.pos is not None and hasattr(e.pos, "filename") and e.pos.filename != fn:
+                    run.violation(f"syntax-file:{text!r}:{fn}",
+                                  f"syntax-error-file: {text!r} parsed as {fn} reports {e.pos}",
+                                  {"kind": "lexical", "text": text, "line": getattr(e.pos, "line", 0), "fname": fn})
+            except Exception:  # noqa: BLE001
+                pass
     run.cov["lexical_faults"] = nlex
     if not nlex:
         raise MachineryError("no lexical fault was rejected by the scanner")
